@@ -446,6 +446,14 @@ def rule_mask_polarity(ck):
         for conj in guard_dnf(c, w.node):
             ok = False
             for t, pol in conj:
+                if isinstance(t, ast.Name):
+                    # a named condition (`has_flags = self.poly_mask is not None`) is read through its definition
+                    try:
+                        te = Expander(P, w).expand(t)
+                        if isinstance(te, ast.Compare):
+                            t = te
+                    except Inconclusive:
+                        pass
                 txt = u(t)
                 if 'poly_mask' not in txt:
                     continue
